@@ -22,4 +22,4 @@ For each change i in (1, 2) deliver, under {wt}/_seed/<i>/ :
   - patch.diff : `git diff` of the change against the worktree's HEAD (only files under src/), applying cleanly with `git apply`
   - demo.py (or demo.sh) : a self-contained demonstration that exits 0 WITHOUT the change and exits non-zero WITH the change (it gets the source tree to use via the environment variable CONDUCTOR_SRC, e.g. it runs `PYTHONPATH=$CONDUCTOR_SRC /venv/bin/python -m conductor ...` or imports conductor after putting $CONDUCTOR_SRC first on sys.path); it must create its own temporary project(s) and clean up; it may use fake/stub processes, monkeypatching of os/subprocess/signal/time, real signals, etc. - whatever is needed to make the specific circumstances happen deterministically.
   - notes.md : which part of the property it breaks, what exactly is needed for it to manifest, why the existing tests do not notice.
-Before you finish: verify both demos yourself (run each with the change applied and with the change reverted), verify the test-suite result, and leave the worktree's tracked files REVERTED to HEAD (git -C {wt} checkout -- . ) so that only the untracked _seed/ directory remains. In your final message give a 5-line summary per change.""")
+NEVER use `git stash` (the stash is shared by all worktrees of the repository and other agents work in sibling worktrees): keep your change as a patch file and use `git apply` / `git apply -R`. Before you finish: verify both demos yourself (run each with the change applied and with the change reverted), verify the test-suite result, and leave the worktree's tracked files REVERTED to HEAD (git -C {wt} checkout -- . ) so that only the untracked _seed/ directory remains. In your final message give a 5-line summary per change.""")
